@@ -446,7 +446,7 @@ func genC07(c *Cfg, emit func([]string)) {
 			mode := pick("cb", "ct", "db", "dt", "dt", "db")
 			switch c.Rng.Intn(15) {
 			case 14:
-				h = append(h, mode+" future "+pick("0", "30000", "200000", "3600000", "86400000"))
+				h = append(h, mode+" future "+pick("0", "30000", "2000000", "7200000", "86400000"))
 			case 12, 13:
 				h = append(h, mode+" bad "+pick(users...)+" "+pick(badKinds...))
 			case 0, 1:
